@@ -115,11 +115,34 @@ fn seg_tok(name: &str, s: &ActorSegment) -> String {
     format!("{}/{}/{}/{}/{}/{}/{}", hex(name.as_bytes()), f32bits(l.x), f32bits(l.y), f32bits(l.z), f32bits(r), f32bits(p), f32bits(y))
 }
 
-/// send_packet into an in-memory buffer.
+/// A sink that accepts at most `max` bytes per write (0 = everything): what a socket with a nearly full send buffer does.
+struct Dribble {
+    buf: Vec<u8>,
+    max: usize,
+}
+
+impl tokio::io::AsyncWrite for Dribble {
+    fn poll_write(mut self: std::pin::Pin<&mut Self>, _cx: &mut std::task::Context<'_>, data: &[u8]) -> std::task::Poll<std::io::Result<usize>> {
+        let n = if self.max == 0 { data.len() } else { data.len().min(self.max) };
+        self.buf.extend_from_slice(&data[..n]);
+        std::task::Poll::Ready(Ok(n))
+    }
+    fn poll_flush(self: std::pin::Pin<&mut Self>, _cx: &mut std::task::Context<'_>) -> std::task::Poll<std::io::Result<()>> {
+        std::task::Poll::Ready(Ok(()))
+    }
+    fn poll_shutdown(self: std::pin::Pin<&mut Self>, _cx: &mut std::task::Context<'_>) -> std::task::Poll<std::io::Result<()>> {
+        std::task::Poll::Ready(Ok(()))
+    }
+}
+
+/// send_packet into an in-memory sink; the sink takes everything at once, or 1 / 7 / 16 / 64 bytes per write, in turn
+/// (what is on the wire after send_packet returned Ok is the whole frame, however the transport chunks it)
 fn send<P: Packetize>(p: &P) -> Vec<u8> {
-    let mut st = Stream::new(std::io::Cursor::new(Vec::<u8>::new()));
+    static TURN: std::sync::atomic::AtomicUsize = std::sync::atomic::AtomicUsize::new(0);
+    let max = [0usize, 1, 7, 0, 16, 64][TURN.fetch_add(1, std::sync::atomic::Ordering::Relaxed) % 6];
+    let mut st = Stream::new(Dribble { buf: vec![], max });
     rt().block_on(st.send_packet(p)).unwrap();
-    st.inner().get_ref().clone()
+    st.inner().buf.clone()
 }
 
 /// recv_packet::<P>(size) from `stream`; returns (consumed, Some(value)|None, panicked).
